@@ -51,6 +51,7 @@ def cases(draw, maxmsgs):
 
 class C28(core.Prop):
     id = "C28"
+    ready = True
     drivers = ["mpi2_interp"]
     sizes = {"quick": 400, "thorough": 12000}
     max_workers = 6
